@@ -314,11 +314,32 @@ impl Client {
         session.clone().start_client().await?;
         tracing::debug!("[Client] Client session started successfully");
 
-        // Store in pool
-        self.session_pool.add_idle_session(session.clone()).await;
-        tracing::debug!("[Client] Session added to pool");
+        // The session is handed to the caller for its first stream, so it is in use,
+        // not idle: it enters the idle pool when that stream has finished
+        // (see `release_session`). While it sat in the idle map from the start, the
+        // reaper could close it under a live stream and every second request dialled
+        // a new connection.
 
         Ok(session)
+    }
+
+    /// Return a session to the idle pool once the stream it was taken for has finished.
+    ///
+    /// A session obtained from `create_proxy_stream` / `create_stream` is out of the
+    /// pool while it is in use; callers give it back here so that later requests reuse
+    /// it instead of dialling a new connection. Closed sessions are dropped.
+    pub async fn release_session(&self, session: Arc<Session>) {
+        if session.is_closed() {
+            tracing::debug!("[Client] Not returning closed session to pool");
+            return;
+        }
+        self.session_pool.add_idle_session(session).await;
+        tracing::debug!("[Client] Session returned to pool");
+    }
+
+    /// The session pool of this client (for the other front-ends of this crate)
+    pub(crate) fn session_pool(&self) -> Arc<SessionPool> {
+        Arc::clone(&self.session_pool)
     }
 
     /// Stop the background cleanup task in the session pool (primarily for tests)
